@@ -393,6 +393,8 @@ impl ReCompiler {
         }
 
         while self.idx < self.len && self.pattern[self.idx] != ']' {
+            #[cfg(feature = "verif-hooks")]
+            crate::verif::step(crate::verif::site::PARSE_CLASS);
             let ch = self.pattern[self.idx];
             simple_char = None;
             match ch {
@@ -541,6 +543,8 @@ impl ReCompiler {
         let mut ub = Vec::new();
 
         while self.idx < self.len {
+            #[cfg(feature = "verif-hooks")]
+            crate::verif::step(crate::verif::site::PARSE_ATOM);
             // is there a next char?
             if (self.idx + 1) < self.len {
                 let mut c = self.pattern[self.idx + 1];
@@ -828,6 +832,8 @@ impl ReCompiler {
         let mut quantifier_flags = vec![1];
         while self.idx < self.len && self.pattern[self.idx] != '|' && self.pattern[self.idx] != ')'
         {
+            #[cfg(feature = "verif-hooks")]
+            crate::verif::step(crate::verif::site::PARSE_BRANCH);
             // get new node
             quantifier_flags[0] = NODE_NORMAL;
             let op = self.piece(&quantifier_flags)?;
